@@ -1167,6 +1167,16 @@ func c27RoundTrip(t ev.TB, r *ev.Rec, o encObj, topHints, nestedHints map[string
 		}
 	}
 
+	if hr, ok := o.V.(hint.Hinter); ok {
+		topHints[hr.Hint().String()]++
+	} else if o.DecodeHint != nil {
+		topHints[o.DecodeHint.String()]++
+	}
+
+	for _, h := range c27HintRe(b1) {
+		nestedHints[h]++
+	}
+
 	var y any
 
 	guard("decode", func() {
@@ -1276,16 +1286,6 @@ func c27RoundTrip(t ev.TB, r *ev.Rec, o encObj, topHints, nestedHints map[string
 	if !bytes.Equal(b1, b2) {
 		sig, detail := c27ReencodeSignature(b1, b2)
 		r.Violation(t, sig, "%s: re-encoding the decoded object gives different bytes: %s", what, detail)
-	}
-
-	if hr, ok := y.(hint.Hinter); ok {
-		topHints[hr.Hint().String()]++
-	} else if o.DecodeHint != nil {
-		topHints[o.DecodeHint.String()]++
-	}
-
-	for _, h := range c27HintRe(b1) {
-		nestedHints[h]++
 	}
 
 	return b1
